@@ -9,7 +9,8 @@ Record c11case := {
   c11_text : list N;                   (* the CSV bytes *)
   c11_source : list c11row;            (* the rows it was rendered from, feature = raw bytes as written *)
   c11_parsed : result (list c11row);   (* what Lexicon::parse_csv returned *)
-  c11_stored : option (result (list (list N)))  (* None: not compiled for this case; features stored in a dictionary compiled from the same rows, by word id *)
+  c11_stored : option (result (list (list N)));  (* None: not compiled for this case; features stored in a dictionary compiled from the same rows, by word id *)
+  c11_homs : list (list N * list N)    (* compiled cases: every distinct surface tokenized as a sentence, with the word ids of the system-lexicon nodes spanning it, in lattice order *)
 }.
 
 Definition row_eqb (a : lexent) (b : c11row) : bool :=
@@ -49,7 +50,18 @@ Definition c11_stored_ok (c : c11case) : bool :=
   | Some Panic => false
   end.
 
+(** all rows sharing a surface are kept as distinct homographs: the tokenizer finds, for every
+    surface, exactly the kept rows with that surface, in row order *)
+Fixpoint ids_with (sf : list N) (rows : list c11row) (i : N) : list N :=
+  match rows with
+  | [] => []
+  | r :: t => (if list_eqb N.eqb (r_surface r) sf then [i] else []) ++ ids_with sf t (N.succ i)
+  end.
+Definition c11_homs_ok (c : c11case) : bool :=
+  let kept := filter (fun r => match r_surface r with [] => false | _ => true end) (c11_source c) in
+  forallb (fun h => list_eqb N.eqb (snd h) (ids_with (fst h) kept 0)) (c11_homs c).
+
 Definition c11_nontrivial (c : c11case) : bool :=
   c11_wellformed c && match c11_parsed c with Ok (_ :: _ :: _) => true | _ => false end.
 
-Definition c11_report := report c11_corr (fun c => c11_oracle c && c11_stored_ok c) (fun _ => false) c11_nontrivial.
+Definition c11_report := report c11_corr (fun c => c11_oracle c && c11_stored_ok c && c11_homs_ok c) (fun _ => false) c11_nontrivial.
